@@ -31,7 +31,7 @@ Op gen_make_face(Rng &r, const std::string &font, int lazy_bias, bool allow_file
         rel_null = r.chance(1, 10); short_ops = r.chance(1, 14);
         if (r.chance(1, 12)) options |= (u32(r.next()) & 0xFFFFFFF8u);     // undefined high bits
     }
-    o.a = {source, ctor, i64(options), rel_null, short_ops};
+    o.a = {source, ctor, i64(options), rel_null, short_ops, (knobs && source == 1 && r.chance(1, 3)) ? i64(1 + r.below(1000000)) : 0};   // a[5]: file layout (0 = the shipped bytes)
     return o;
 }
 
@@ -79,6 +79,7 @@ static Plan gen_shape(u64 seed) {
     std::string font = gen_font(r);
     const FontImage *fi = g_corpus.find(font);
     Op mf = gen_make_face(r, font, 60, true, false);
+    bool want_runs = false;     // a cyclic state table only matters on long runs of the same characters
     if (!r.chance(1, 4)) {
         int n = 1 + (r.chance(1, 3) ? int(r.below(3)) : 0);
         for (int i = 0; i < n; ++i) {
@@ -86,14 +87,15 @@ static Plan gen_shape(u64 seed) {
             u32 sel = r.below(100);
             if (sel < 35) { f = gen_code_fault(r, *fi); if (f.a.empty()) sel = 100; }
             else if (sel < 45) { f = gen_loop_fault(r, *fi); if (f.a.empty()) sel = 100; }
-            else if (sel < 53) {
+            else if (sel < 50) { f = gen_state_fault(r, *fi); if (f.a.empty()) sel = 100; else { sel = 0; want_runs = true; } }
+            else if (sel < 58) {
                 // re-map a character that the texts of this font really use (frequency-weighted), not a random cmap entry
                 std::vector<u32> cand; const FontInfo &in = g_pool.info[font];
                 if (!in.texts.empty()) { const std::vector<u32> &tf = g_pool.files[size_t(r.pick(in.texts))]; for (int q = 0; q < 6; ++q) { u32 c = tf[r.below(u32(tf.size()))]; if (c != ' ') cand.push_back(c); } }
                 if (cand.empty()) cand = in.cps;
                 f = gen_gid_fault(r, *fi, cand); if (f.a.empty()) sel = 100; else sel = 0;
             }
-            if (sel >= 53) {
+            if (sel >= 58) {
                 for (int t = 0; t < 10; ++t) { f = gen_store_fault(r, *fi); if (f.kind == "BITROT" || f.kind == "SETBYTES" || f.kind == "TORN" || (f.kind == "TRUNCATE" && r.chance(1, 4))) break; }
                 if (!(f.kind == "BITROT" || f.kind == "SETBYTES" || f.kind == "TORN" || f.kind == "TRUNCATE")) continue;
                 if (r.chance(7, 10)) f.nth = -1;
@@ -111,6 +113,12 @@ static Plan gen_shape(u64 seed) {
         }
         p.ops.push_back(o);
         if (r.chance(1, 6)) p.ops.push_back(mk("destroy_seg", {i64(r.below(8))}));
+    }
+    if (want_runs && !g_pool.info[font].cps.empty()) for (int q = 0; q < 3; ++q) {
+        Op o; o.kind = "probe_seg"; o.a = {0, 0, i64(1 << r.below(3)), i64(r.below(8)), 0};
+        const std::vector<u32> &cps = g_pool.info[font].cps; u32 a = r.pick(cps), b = r.pick(cps); size_t n = 70 + r.below(200);
+        o.text.push_back(b); for (size_t k = 0; k < n; ++k) o.text.push_back(a);
+        p.ops.push_back(o);
     }
     if (r.chance(1, 600) && !g_pool.info[font].big && !g_pool.info[font].cps.empty()) {
         // one very long text (more than 65536 characters): counters and indices that silently assume 16 bits
